@@ -53,6 +53,39 @@ static uint64_t unterminated_slot(size_t n, bool wide) {
 	return (uint64_t)g_strs.back()->data();
 }
 
+// What POSIX prescribes for the ' flag on a d/i/u conversion, derived from the (correct) output without grouping: the digits are
+// split into groups from the right by the locale's grouping sizes (last size repeats), separated by the locale's separator; sign
+// and padding to the field width (counted in bytes) stay as they are. Returns false where the expectation is not clear-cut
+// (zero padding from a precision or the 0 flag: implementations differ on whether those zeros are grouped).
+static bool grouped_expectation(const std::string &fmt, const std::string &plain, const char *sep, const char *grouping, std::string &out) {
+	if(fmt.size() < 2 || fmt[0] != '%' || fmt.find('%', 1) != std::string::npos || !strchr("diu", fmt.back())) return false;
+	size_t i = 0, n = plain.size();
+	while(i < n && plain[i] == ' ') i++;
+	size_t lead = i;
+	std::string sign;
+	if(i < n && (plain[i] == '-' || plain[i] == '+')) sign = plain[i++];
+	size_t d0 = i; while(i < n && plain[i] >= '0' && plain[i] <= '9') i++;
+	std::string digits = plain.substr(d0, i - d0);
+	size_t t0 = i; while(i < n && plain[i] == ' ') i++;
+	if(i != n) return false;
+	size_t trail = n - t0;
+	if(digits.empty() || (digits.size() > 1 && digits[0] == '0')) return false;
+	// the "space" flag puts one blank where the sign would be: it belongs to the number, not to the padding
+	std::string flags = fmt.substr(1, fmt.find_first_not_of("-+ 0'#", 1) - 1);
+	if(sign.empty() && fmt.back() != 'u' && flags.find(' ') != std::string::npos && flags.find('+') == std::string::npos) { /* signed conversions only */ if(!lead) return false; sign = " "; lead--; }
+	std::string body; size_t gi = 0, in_group = 0;
+	for(size_t k = digits.size(); k-- > 0; ) {
+		int gs = (signed char)grouping[gi];
+		if(gs > 0 && gs != 127 && in_group == (size_t)gs) { body.insert(0, sep); in_group = 0; if(grouping[gi + 1]) gi++; }
+		body.insert(body.begin(), digits[k]); in_group++;
+	}
+	body = sign + body;
+	size_t width = (lead || trail) ? n : 0;
+	out = body;
+	if(out.size() < width) { if(trail) out += std::string(width - out.size(), ' '); else out = std::string(width - out.size(), ' ') + out; }
+	return true;
+}
+
 static void compare(const Case &c, bool informational = false) {
 	std::string z = c.fmt; z.push_back('\0');
 	GuardedBuf gf(z.data(), z.size());
@@ -69,12 +102,27 @@ static void compare(const Case &c, bool informational = false) {
 	// without the ' flag the locale's grouping must not matter: the same directive with the locale_options of an en_US-like
 	// locale handed to do_printf_ints has to produce the same bytes
 	if(c.fmt.find('\'') == std::string::npos && !informational && fr.out == exp) { // (only where the default-locale run is right: one defect, one report)
-		FriggResult fl = run_frigg(gf.data(), c.slots, false, false, true);
+		FriggResult fl = run_frigg(gf.data(), c.slots, false, false, 1);
 		count("printf_directives_compared_with_locale_options");
 		if(!fl.panicked && fl.out != exp) {
 			case_detail("format \"%s\"", c.fmt.c_str());
 			violation("C19:printf:locale-options:" + c.key, strf("printf_format(\"%s\", %s) with locale_options(\".\", \",\", groups of 3) produced \"%s\", ISO C / glibc produces \"%s\" (no ' flag: grouping does not apply)", c.fmt.c_str(), c.desc.c_str(), fl.out.substr(0, 120).c_str(), exp.substr(0, 120).c_str()));
 			g_mismatches++;
+		}
+	}
+	// with the ' flag the same locale_options group the digits of d/i/u conversions
+	if(c.fmt.find('\'') != std::string::npos && !informational && fr.out == exp) {
+		for(int kind = 1; kind <= 4; kind++) {
+			auto lk = Agent::locale_kind(kind);
+			std::string want;
+			if(!grouped_expectation(c.fmt, exp, lk.sep, lk.grouping, want)) { count("printf_grouping_expectation_not_clear_cut"); break; }
+			FriggResult fl = run_frigg(gf.data(), c.slots, false, false, kind);
+			count("printf_directives_compared_with_grouping");
+			if(fl.panicked || fl.out != want) {
+				case_detail("format \"%s\"", c.fmt.c_str());
+				violation("C19:printf:grouping:" + c.key, strf("printf_format(\"%s\", %s) with the locale_options of a locale that is %s produced \"%s\"%s, POSIX prescribes \"%s\"", c.fmt.c_str(), c.desc.c_str(), lk.name, fl.out.substr(0, 120).c_str(), fl.panicked ? " and stopped at an assertion" : "", want.substr(0, 120).c_str()));
+				g_mismatches++; break;
+			}
 		}
 	}
 	if(fr.out != exp) {
